@@ -31,10 +31,12 @@ func processTableDepth(
 	incompleteTableDepthMap map[string]int,
 	visitedTableAttrs map[string]string,
 ) {
+	progress := false
 	for tableName := range incompleteTableDepthMap {
 		processComplete, size, tempVisitedAttrs := findTableDepth(tableName, tableMap[tableName],
 			visitedTableAttrs, completeTableDepthMap)
 		if processComplete {
+			progress = true
 			processedTablesSlice := completedTableDepthMap[size]
 			if processedTablesSlice == nil {
 				processedTablesSlice = nil
@@ -47,6 +49,28 @@ func processTableDepth(
 				visitedTableAttrs[tempAttr] = tempVisitedAttrs[tempAttr]
 			}
 		}
+	}
+	if len(incompleteTableDepthMap) != 0 && !progress {
+		// No table could be completed in this pass: the remaining tables reference each other in
+		// a cycle or reference a column that no table defines. Emit them last (in name order)
+		// instead of recursing forever.
+		maxDepth := -1
+		for depth := range completedTableDepthMap {
+			if depth > maxDepth {
+				maxDepth = depth
+			}
+		}
+		var rest []string
+		for tableName := range incompleteTableDepthMap {
+			rest = append(rest, tableName)
+		}
+		sort.Strings(rest)
+		for _, tableName := range rest {
+			completedTableDepthMap[maxDepth+1] = append(completedTableDepthMap[maxDepth+1], tableName)
+			completeTableDepthMap[tableName] = maxDepth + 1
+			delete(incompleteTableDepthMap, tableName)
+		}
+		return
 	}
 	if len(incompleteTableDepthMap) != 0 {
 		processTableDepth(tableMap, completedTableDepthMap, completeTableDepthMap, incompleteTableDepthMap,
